@@ -198,9 +198,10 @@ def engine_union(c, t, joins=True):
         engine_sim(c, "union-join", "JoinUnionMenu", lines="LinesJ", maxlines=6, num=600 if t else 60, modes=("batch", "incr"), minlines=1)
     # generated statements: every clause drawn independently from a pool (projections x WHERE x DISTINCT x LIMIT x GROUP BY keys x 1-3 aggregates, plain or
     # wrapped x HAVING x INNER / OUTER JOIN), 400 / 300 statements per run, random inputs: feature combinations that no hand-written menu lists
-    engine_sim(c, "gen", "GenMenu", lines="LinesUnion", maxlines=8, num=4000 if t else 400, modes=("batch", "incr"), minlines=2)
+    engine_sim(c, "gen", "GenMenu", lines="LinesUnion", maxlines=8, num=4000 if t else 400, modes=("batch", "incr"), minlines=2, tdefs=("plain", "knn", "vdef", "bothnn", "nndef"))
+    engine_sim(c, "gen-real", "GenMenu", lines="LinesReal", maxlines=6, num=1500 if t else 150, modes=("batch", "incr"), minlines=2, tdefs=("vreal",))
     if joins:
-        engine_sim(c, "gen-join", "GenJoinMenu", lines="LinesJ", maxlines=6, num=2500 if t else 250, modes=("batch", "incr"), minlines=1)
+        engine_sim(c, "gen-join", "GenJoinMenu", lines="LinesJ", maxlines=6, num=2500 if t else 250, modes=("batch", "incr"), minlines=1, tdefs=("plain", "udef", "knn"))
 
 
 def engine_follow_run(c, name, menu, lines="Lines3", maxlines=3, tdefs=("plain",), sample=1500, invs=("TypeOK", "FollowLimit", "IncrRefinesSem", "IncrSelectRefinesSem")):
